@@ -310,6 +310,22 @@ func (d *Driver) Apply(s Step) bool {
 		c.AdminEv(ev, msg)
 		return true
 
+	case "govRewardDenom": // governance whitelists an external reward denom (MsgAddExternalRewardDenom)
+		min, _ := math.NewIntFromString(s.S("min"))
+		if min.IsNil() {
+			min = math.OneInt()
+		}
+		ev := newEvent("masterchef.MsgAddExternalRewardDenom", "gov")
+		ev.Args["denom"] = s.S("d")
+		c.AdminEv(ev, &mctypes.MsgAddExternalRewardDenom{Authority: c.gov(), RewardDenom: s.S("d"), MinAmount: min, Supported: true})
+		return true
+
+	case "govToggleEden": // governance switches Eden rewards of a pool on / off
+		ev := newEvent("masterchef.MsgTogglePoolEdenRewards", "gov")
+		ev.Args["pool"] = u(uint64(s.I("p")))
+		c.AdminEv(ev, &mctypes.MsgTogglePoolEdenRewards{Authority: c.gov(), PoolId: uint64(s.I("p")), Enable: s.S("on") != "false"})
+		return true
+
 	case "govVestInfo": // governance: MsgUpdateVestingInfo for ueden
 		msg := &committypes.MsgUpdateVestingInfo{Authority: c.gov(), BaseDenom: "ueden", VestingDenom: "uelys", NumBlocks: s.I("num"),
 			VestNowFactor: 90, NumMaxVestings: s.I("max")}
@@ -554,6 +570,11 @@ func (d *Driver) Apply(s Step) bool {
 		if s.Has("sl") {
 			sl = math.LegacyMustNewDecFromStr(s.S("sl"))
 		}
+		if s.Has("slMul") { // relative to the LP token price the stop-loss check compares with
+			if lpp, err := probeLpPrice(c, ctx, p); err == nil {
+				sl = lpp.Mul(math.LegacyMustNewDecFromStr(s.S("slMul")))
+			}
+		}
 		ev := newEvent("leveragelp.MsgOpen", user)
 		ev.Args["pool"], ev.Args["collateral"], ev.Args["leverage"] = u(p.PoolId), amt.String(), ds(math.LegacyMustNewDecFromStr(lev))
 		d.queue(user, ev, &leveragelptypes.MsgOpen{Creator: d.addr(user), CollateralAsset: "uusdc", CollateralAmount: amt, AmmPoolId: p.PoolId,
@@ -601,11 +622,11 @@ func (d *Driver) Apply(s Step) bool {
 		var liq, sl []*leveragelptypes.PositionRequest
 		for _, x := range posReqs(d, s["liq"]) {
 			pr := x.([]any)
-			liq = append(liq, &leveragelptypes.PositionRequest{Address: d.addr(pr[0].(string)), Id: uint64(pr[1].(float64))})
+			liq = append(liq, &leveragelptypes.PositionRequest{Address: d.addr(pr[0].(string)), Id: uint64(numOf(pr[1]))})
 		}
 		for _, x := range posReqs(d, s["sl"]) {
 			pr := x.([]any)
-			sl = append(sl, &leveragelptypes.PositionRequest{Address: d.addr(pr[0].(string)), Id: uint64(pr[1].(float64))})
+			sl = append(sl, &leveragelptypes.PositionRequest{Address: d.addr(pr[0].(string)), Id: uint64(numOf(pr[1]))})
 		}
 		ev := newEvent("leveragelp.MsgClosePositions", user)
 		ev.Args["liq"] = reqNames(s["liq"])
@@ -698,10 +719,11 @@ func (d *Driver) Apply(s Step) bool {
 		if !s.Has("exact") {
 			s = Step{"a": s["a"], "u": s["u"], "liq": d.resolveReqs(ctx, s["liq"], true), "sl": d.resolveReqs(ctx, s["sl"], true), "tp": d.resolveReqs(ctx, s["tp"], true)}
 		}
+		user = s.S("u")
 		mk := func(v any) (out []perpetualtypes.PositionRequest) {
 			for _, x := range posReqs(d, v) {
 				pr := x.([]any)
-				out = append(out, perpetualtypes.PositionRequest{Address: d.addr(pr[0].(string)), Id: uint64(pr[1].(float64))})
+				out = append(out, perpetualtypes.PositionRequest{Address: d.addr(pr[0].(string)), Id: uint64(numOf(pr[1]))})
 			}
 			return
 		}
@@ -933,6 +955,18 @@ func (d *Driver) Apply(s Step) bool {
 
 func routeStrs(ids []uint64) []any { return idStrs(ids) }
 
+// numOf reads a number that a schedule may carry as a JSON number or as a decimal string (TLC models print ids as strings).
+func numOf(v any) float64 {
+	switch x := v.(type) {
+	case float64:
+		return x
+	case string:
+		n, _ := strconv.ParseFloat(x, 64)
+		return n
+	}
+	return 0
+}
+
 func idStrs(ids []uint64) []any {
 	out := []any{}
 	for _, i := range ids {
@@ -962,7 +996,7 @@ func (d *Driver) resolveReqs(ctx sdk.Context, v any, perp bool) []any {
 	}
 	for _, x := range arr {
 		pr := x.([]any)
-		owner, id := pr[0].(string), uint64(pr[1].(float64))
+		owner, id := pr[0].(string), uint64(numOf(pr[1]))
 		exists := false
 		for _, k := range all {
 			if k.owner == owner && k.id == id {
@@ -983,7 +1017,7 @@ func reqNames(v any) []any {
 	arr, _ := v.([]any)
 	for _, x := range arr {
 		pr := x.([]any)
-		out = append(out, pr[0].(string)+"/"+u(uint64(pr[1].(float64))))
+		out = append(out, pr[0].(string)+"/"+u(uint64(numOf(pr[1]))))
 	}
 	return out
 }
